@@ -5,7 +5,7 @@ extracted Coq model (fid 1301, model of the code with fix F25); every return val
 dumped through the public API after the steps (audit operations, part of the history the model runs too), every object
 returned by load_job / load_search is KEPT and compared again at the end (snapshot clause; aliasing cannot be stated in
 Gallina), and kept objects are scribbled over to see that the storage does not change (snapshot, other direction).
-Oracles are the extracted Coq checkers ids_fresh_b (1303), ok_ryw (1304), ok_C13 (1305).
+Oracles are the extracted Coq checkers ids_fresh_b (1303), ok_ryw (1304), ok_C13 (1305), ok_exist (1306).
 Concurrency: 2..8 client processes on one SharedMemoryStorage, observed histories judged by ok_C13.
 Atomicity certificate: dis of create_new_search / create_new_job, no eval-breaker opcode between counter read and write.
 
@@ -40,7 +40,7 @@ RULE = ("exhaustive: every history of length L (4 quick / 5 thorough; all shorte
         "random: generated histories (length <= 60 quick / 200 thorough) over all 17 public methods, valid and invalid ids, nested mutable values; "
         "non-trivial = at least one successful store followed by a load of the same job, or an error answer")
 
-F_RUN, F_RUN_PREFIX, F_FRESH, F_RYW, F_C13 = 1301, 1302, 1303, 1304, 1305
+F_RUN, F_RUN_PREFIX, F_FRESH, F_RYW, F_C13, F_EXIST = 1301, 1302, 1303, 1304, 1305, 1306
 
 RESERVED = ["status", "in", "out", "metadata", "intermediate", "args", "kwargs", "budget", "objective", "job_id_counter", "data", "values"]
 TOK = {s: i for i, s in enumerate(RESERVED)}
@@ -319,13 +319,24 @@ def allow_children():
 
 
 class Shared:
-    """SharedMemoryStorage() with a guaranteed shutdown of its manager process."""
+    """SharedMemoryStorage() with a guaranteed shutdown of its manager process.
+    switch: thread switch interval inherited by the (forked) server process - a tiny value makes the server threads
+    of concurrent clients interleave at almost every eval-breaker check (schedule pressure, no change of semantics)."""
+
+    def __init__(self, switch=None):
+        self.switch = switch
 
     def __enter__(self):
         from deephyper.evaluator.storage import SharedMemoryStorage
 
         allow_children()
-        self.st = SharedMemoryStorage()
+        old = sys.getswitchinterval()
+        try:
+            if self.switch:
+                sys.setswitchinterval(self.switch)
+            self.st = SharedMemoryStorage()
+        finally:
+            sys.setswitchinterval(old)
         return self.st
 
     def __exit__(self, *a):
@@ -463,6 +474,8 @@ def check_history(case):
         # --- oracles on the implementation's outputs (extracted Coq checkers)
         if not m.call(F_FRESH, outs_):
             return dict(res, ok=False, clause="fresh_ids", detail=dict(backend=b, ids=[x for x in outs_ if x[0] in (1, 2)]))
+        if not m.call(F_EXIST, [[od, x] for od, x in zip(mdata, outs_)]):
+            return dict(res, ok=False, clause="created_stays", detail=dict(backend=b, first_diff_with_model=_diff_detail(mops, cou, mouts)))
         if not m.call(F_RYW, [[od, x] for od, x in zip(mdata, outs_)]):
             return dict(res, ok=False, clause="read_your_writes", detail=dict(backend=b, first_diff_with_model=_diff_detail(mops, cou, mouts)))
         if fails:
@@ -585,8 +598,8 @@ def gen_random(count, maxlen, reserved=False):
             n = rng.randint(1, 12) if (tier == "search" or i % 3 == 0) else rng.randint(1, maxlen)
             ns, nj = 0, {}
             ops = []
-            # a warm-up so that most operations hit existing objects
-            for _ in range(rng.randint(0, 2)):
+            # a warm-up so that most operations hit existing objects; every 8th case has ids with two digits
+            for _ in range(rng.randint(9, 13) if i % 8 == 5 else rng.randint(0, 2)):
                 ops.append(["create_search"])
                 nj[ns] = 0
                 ns += 1
@@ -602,6 +615,13 @@ def gen_random(count, maxlen, reserved=False):
                     return [s, rng.randrange(nj[s])]
                 return [s, rng.choice([nj.get(s, 0), nj.get(s, 0) + 2, -1])]
 
+            if i % 8 == 5:
+                n += len(ops)
+                for _ in range(rng.randint(0, 14)):  # ... and jobs with two digits
+                    s0 = rng.randrange(ns)
+                    ops.append(["create_job", s0])
+                    nj[s0] += 1
+                n += 4
             while len(ops) < n:
                 r = rng.random()
                 if r < 0.05:
@@ -699,10 +719,14 @@ def resolve(cop, own):
     raise ValueError(n)
 
 
-def client_main(st, script, strings, barrier, conn):
+def client_main(st, script, strings, barrier, conn, pickled=False):
     """One client process: waits at the barrier, runs its script, sends back [(op data, out data)]."""
     o = None
     try:
+        if pickled:
+            import pickle
+
+            st = pickle.loads(pickle.dumps(st))
         T = Tokens(strings)
         own, hist = [], []
         try:
@@ -733,9 +757,9 @@ def check_concurrent(case):
     T = Tokens(strings)
     ctx = mp.get_context(case.get("start", "fork"))
     m = model()
-    res = dict(ok=True, kind="oracle", clause="", sig={}, nontrivial=False, desc=["clients=%d" % len(scripts)])
+    res = dict(ok=True, kind="oracle", clause="", sig={}, nontrivial=False, desc=["clients=%d" % len(scripts), "proxy=" + ("pickled" if case.get("pickled") else "forked")])
     procs = []
-    with Shared() as st:
+    with Shared(switch=case.get("switch")) as st:
         try:
             for _ in range(case["nsearch"]):
                 st.create_new_search()
@@ -748,7 +772,7 @@ def check_concurrent(case):
             pipes = []
             for sc in scripts:
                 a, b = ctx.Pipe(duplex=False)
-                p = ctx.Process(target=client_main, args=(st, sc, strings, barrier, b), daemon=True)
+                p = ctx.Process(target=client_main, args=(st, sc, strings, barrier, b, bool(case.get("pickled"))), daemon=True)
                 p.start()
                 b.close()
                 procs.append(p)
@@ -784,13 +808,15 @@ def check_concurrent(case):
     res["nontrivial"] = inter > 0
     res["desc"] += ["interleaved_clients=%d" % inter, "ops_per_client~%d" % (sum(map(len, scripts)) // len(scripts) // 50 * 50)]
     hs = [h + dumps for h in hists]
-    if not m.call(F_C13, [pre, hs, fin]):
+    if not (m.call(F_C13, [pre, hs, fin]) and all(m.call(F_EXIST, h) for h in hs)):
         # which conjunct: recompute the parts with the same extracted checkers
         allouts = [x for h in hists for _, x in h]
         if not m.call(F_FRESH, allouts):
             clause = "fresh_ids"
         elif not all(m.call(F_RYW, h) for h in hs):
             clause = "client_reads_own_writes_or_final_union"
+        elif not all(m.call(F_EXIST, h) for h in hs):
+            clause = "created_stays"
         else:
             clause = "final_job_set"
         dup = sorted(map(tuple, sum(created, [])))
@@ -833,15 +859,20 @@ def rand_script(rng, nops, nsearch, heavy_create):
     return sc
 
 
-def gen_concurrent(count, nops, max_clients):
+def gen_concurrent(count, nops, max_clients, nspawn):
     def gen(rng, tier):
         k = count
+        # the proxy reaches the clients pickled (what ProcessPoolEvaluator / loky does with a storage): the forked client
+        # round-trips it through pickle before use (a real "spawn" start would re-run ./check as __mp_main__)
+        for i in range(0 if tier == "search" else nspawn):
+            yield dict(nsearch=1, pre=[[0, 1]], scripts=[rand_script(rng, 120, 1, i % 2 == 0) for _ in range(2 + i % 3)], start="fork", pickled=True)
         for i in range(k):
             nc = rng.randint(2, max_clients) if i else max_clients
             ns = rng.randint(1, 2)
             heavy = (i % 2 == 0) or tier == "search"
             yield dict(nsearch=ns, pre=[[s, rng.randint(0, 3)] for s in range(ns)],
-                       scripts=[rand_script(rng, nops if tier != "search" else nops * 3, ns, heavy) for _ in range(nc)], start="fork")
+                       scripts=[rand_script(rng, nops if tier != "search" else nops * 3, ns, heavy) for _ in range(nc)], start="fork",
+                       switch=[None, 1e-6][i % 2])
     return gen
 
 
@@ -920,7 +951,7 @@ def gen_certificate(rng, tier):
     if tier == "search":
         for i in range(12):
             nc = 8
-            yield dict(type="stress", nsearch=1, pre=[], scripts=[[["new", 0]] * 1500 for _ in range(nc)], start="fork")
+            yield dict(type="stress", nsearch=1, pre=[], scripts=[[["new", 0]] * 1500 for _ in range(nc)], start="fork", switch=1e-6)
     else:
         yield dict(type="cert")
 
@@ -958,9 +989,9 @@ def streams(tier):
     th = tier == "thorough"
     return [
         Stream("atomicity_certificate", gen_certificate, check_certificate, None, parallel=False, timeout=300),
-        Stream("exhaustive", gen_exhaustive(5 if th else 4, 12000 if th else 1500), check_exhaustive, shrink_alpha, timeout=600),
-        Stream("random_histories", gen_random(8000 if th else 1500, 200 if th else 60), check_history, shrink_ops, timeout=120),
+        Stream("exhaustive", gen_exhaustive(5 if th else 4, 12000 if th else 1000), check_exhaustive, shrink_alpha, timeout=600),
+        Stream("random_histories", gen_random(8000 if th else 1200, 200 if th else 60), check_history, shrink_ops, timeout=120),
         Stream("reserved_search_keys", gen_random(1500 if th else 200, 40, reserved=True), check_history, shrink_ops, timeout=120),
-        Stream("concurrent_clients", gen_concurrent(64 if th else 16, 600 if th else 300, 8), check_concurrent, shrink_concurrent, timeout=200),
+        Stream("concurrent_clients", gen_concurrent(64 if th else 16, 600 if th else 300, 8, 8 if th else 2), check_concurrent, shrink_concurrent, timeout=200),
         Stream("null_storage", gen_null, check_null, None, timeout=30),
     ]
